@@ -169,6 +169,7 @@ def _load1(ctx, cfg, custom):
         extra_kwargs.append(dict(k))
         return file
     objs_before = {(n, k): p for n in dst.networks for k, p in getattr(dst, n).named_parameters()}
+    ud_before = {k: (v, v.detach().clone(), v._version) for k, v in getattr(dst, "unitary_dict", {}).items()}
     with mock.patch.object(torch, "load", fake_load):
         r = dst.load("LOCATION")
     # loading restores VALUES into the state as it is: its networks and their parameter objects stay the same objects, so
@@ -177,6 +178,11 @@ def _load1(ctx, cfg, custom):
     objs_after = {(n, k): p for n in dst.networks for k, p in getattr(dst, n).named_parameters()}
     ctx.holds("load/the state's parameter objects are kept (values copied in, objects not replaced)[%s]" % kind,
               set(objs_after) == set(objs_before) and all(objs_after[key] is objs_before[key] for key in objs_before))
+    # the unitaries a state holds are the caller's tensors (its dictionary, and every other state built from it, share them):
+    # loading replaces the state's dictionary, it never writes into those tensors
+    ctx.holds("load/the unitary tensors the state held before are not written (the caller's dictionary and sibling states share them)[%s]" % kind,
+              all(torch.equal(t, val) and t._version == ver for (t, val, ver) in ud_before.values()),
+              str([k for k, (t, val, ver) in ud_before.items() if not (torch.equal(t, val) and t._version == ver)]))
     ctx.holds("load/loaded parameters do not share storage with the tensors of the file[%s]" % kind,
               all(objs_after[(n, k)].data_ptr() != file[n][k].data_ptr() for (n, k) in objs_after if k in file.get(n, {})))
     # what is loaded must not stay backed by the file: the file may be rewritten (the next checkpoint of a run, another
